@@ -6,7 +6,7 @@
 #   selftest.sh seeded        (everything under seeded/*/)
 set -u
 cd "$(dirname "$0")"
-revert() { git -C "${REPO_DIR:-/repo}" checkout -- . 2>/dev/null; git -C "${REPO_DIR:-/repo}" clean -fdq -- tests 2>/dev/null; }
+revert() { git -C "${REPO_DIR:-/repo}" checkout -- . 2>/dev/null; git -C "${REPO_DIR:-/repo}" clean -fdq -- tests src 2>/dev/null; }
 trap revert EXIT
 one() { # patch, props...
   local patch="$1"; shift
